@@ -156,7 +156,16 @@ func (ex *Exec) loadLV(st *PState, lv *LValue) string {
 			ex.vc.Assume(not(eq(app("itag", g), "0")))
 			ex.vc.trusted["A-GLOBALS package-level variables are immutable after init; package-level error variables are non-nil"] = true
 		}
-		return g
+		cur := g
+		for _, pe := range lv.Path {
+			if pe.Index != "" {
+				cur = sel(cur, pe.Index)
+			} else {
+				si := ex.reg.StructInfoOf(pe.T)
+				cur = app(si.Fields[pe.Field].Acc, cur)
+			}
+		}
+		return cur
 	}
 	cur := sel(ex.H(st, lv.Heap, lv.HSort), lv.Base)
 	for _, pe := range lv.Path {
@@ -578,7 +587,7 @@ func (ex *Exec) constVal(c *ssa.Const) Val {
 		return Val{T: ex.reg.StrLit(constant.StringVal(c.Value)), S: SStr, GT: t}
 	case constant.Int:
 		if s == SF64 {
-			return Val{T: ex.reg.F64Lit(c.Value.ExactString()), S: SF64, GT: t}
+			return Val{T: ex.f64Const(c.Value), S: SF64, GT: t}
 		}
 		str := c.Value.ExactString()
 		if strings.HasPrefix(str, "-") {
@@ -589,7 +598,7 @@ func (ex *Exec) constVal(c *ssa.Const) Val {
 		if s == SInt {
 			return Val{T: "0", S: SInt, GT: t}
 		}
-		return Val{T: ex.reg.F64Lit(c.Value.ExactString()), S: SF64, GT: t}
+		return Val{T: ex.f64Const(c.Value), S: SF64, GT: t}
 	}
 	return Val{T: ex.reg.ZeroValue(t), S: s, GT: t}
 }
@@ -1279,4 +1288,15 @@ func (f *Frame) next(i *ssa.Next, st *PState) {
 	ex.vc.Assume(implies(ok, and(not(eq(it.T, "0")), sel(sel(ex.H(st, dn, ds), it.T), k.T), eq(v.T, sel(sel(ex.H(st, vn, vs), it.T), k.T)))))
 	f.assumeAllocated(v.T, mt.Elem(), st, 0)
 	f.vals[i] = Val{S: "Tuple", GT: i.Type(), Tuple: []Val{{T: ok, S: SBool, GT: types.Typ[types.Bool]}, k, v}}
+}
+
+// f64Const: integral float constants are `(f64_of_int n)` so that specs can name them; others are opaque literals.
+func (ex *Exec) f64Const(v constant.Value) string {
+	if iv := constant.ToInt(v); iv.Kind() == constant.Int {
+		if n, ok := constant.Int64Val(iv); ok {
+			fn := ex.reg.UFun("f64_of_int", []Sort{SInt}, SF64)
+			return app(fn, num(n))
+		}
+	}
+	return ex.reg.F64Lit(v.ExactString())
 }
